@@ -29,6 +29,10 @@ def shard_trie(desc):
     return qrun.trie_shard(desc)[0]
 
 
+def shard_ultra(desc):
+    return qrun.ultralong_shard(desc)[0]
+
+
 def trie_work(alphabet, total_depth, ps, plen=2):
     work = []
     for p in ps:
@@ -46,7 +50,7 @@ def plan(tier, seed, variants_quick, variants_thorough):
     return {'d2': 18, 'd3': 12, 'd4': 9, 'nstreams': 20000, 'nmirror': 6000, 'dense': 400, 'longmax': 100000, 'variants': variants_thorough, 'mult': 8}
 
 
-def run_workload(tier, seed, shard_s, shard_t):
+def run_workload(tier, seed, shard_s, shard_t, shard_u=None):
     cfg = plan(tier, seed, [('release', 1.0), ('dev', 0.3)], [('release', 1.0), ('dev', 0.2)])
     total = Result()
     for variant, frac in cfg['variants']:
@@ -66,6 +70,11 @@ def run_workload(tier, seed, shard_s, shard_t):
                   'verylong': ((2 ** 20 if tier == 'quick' else 2 ** 22) if (s == 0 and variant == 'release') else 0),
                   'seed': seed * 1000003 + s * 7919 + sum(map(ord, variant))} for s in range(nsh)]
         total.merge(common.run_shards(shard_s, descs))
+        if shard_u is not None and variant == 'release':
+            # streams of 2^25 (quick) / 2^28 (thorough) observations, state dumped around every power of two and of ten
+            total.merge(common.run_shards(shard_u, [{'name': 'u%d' % s, 'variant': variant, 'binary': binary,
+                                                     'kmax': (25 if tier == 'quick' else 28) - s, 'seed': seed * 101 + s}
+                                                    for s in range(2)]))
     return total, cfg
 
 
@@ -133,7 +142,7 @@ def run(tier, seed):
     cfg = {}
     mono = []
     try:
-        total, cfg = run_workload(tier, seed, shard_stream, shard_trie)
+        total, cfg = run_workload(tier, seed, shard_stream, shard_trie, shard_ultra)
         mono = monotone_report(build('release'))
         if tier == 'thorough':
             miri_leg(total, seed)
